@@ -50,7 +50,7 @@ def power_basis(coeffs):
     return out
 
 
-COORD_FAMILIES = ["int", "grid", "dyadic", "float", "big", "collinear", "coincident", "arch", "elevated", "retracted", "teardrop", "axischord"]
+COORD_FAMILIES = ["int", "grid", "dyadic", "float", "big", "collinear", "coincident", "arch", "elevated", "retracted", "teardrop", "axischord", "tiny", "evenspaced"]
 
 
 def rand_coord(rng, fam):
@@ -79,6 +79,22 @@ def rand_seg_pts(rng, order, fam):
         pts[j] = pts[k]
         if rng.random() < 0.3:
             pts = [pts[0]] * order
+    elif fam == "tiny":
+        # an ordinary control polygon scaled by an exact power of two down to 1e-5 .. 1e-9: every property that is scale-covariant must not
+        # care (absolute tolerances in the code would)
+        k = 2.0 ** -rng.choice([17, 20, 24, 30])
+        pts = [(x * k, y * k) for x, y in pts]
+    elif fam == "evenspaced" and order == 4:
+        # three consecutive control points exactly evenly spaced in one coordinate: the derivative's linear coefficient vanishes exactly
+        # (b = 0, roots +-sqrt(-c/a)), with an interior extremum in that coordinate
+        c = rng.randrange(2)
+        h = float(rng.randint(5, 60)) * rng.choice([-1, 1])
+        x0 = float(rng.randint(-50, 50))
+        if rng.random() < 0.5:
+            v = [x0, x0 + h, x0 + 2 * h, x0 + 2 * h - float(rng.randint(1, 4)) * h]      # p0, p1, p2 evenly spaced, p3 turns back
+        else:
+            v = [x0 + 2 * h - float(rng.randint(1, 4)) * h, x0 + 2 * h, x0 + h, x0]      # p1, p2, p3 evenly spaced (b + 2a = 0): the mirror image
+        pts = [((v[j], pts[j][1]) if c == 0 else (pts[j][0], v[j])) for j in range(4)]
     elif fam == "retracted" and order >= 3:
         # handles sitting on the end points (both, or one): the image is the chord but the parametrisation is not linear
         if order == 4:
@@ -302,4 +318,46 @@ def stale_check(pts, seed, queries):
         if a != b and not (a != a and b != b):
             return "after changing the control points in place (%s) %s answers %r; a fresh segment with the same control points %r answers %r (stale state)" % (
                 route, name, a, new, b)
+    return None
+
+
+def path_stale_check(segs, closed, seed, queries):
+    """the same for whole paths: put the queries to a live path, change it in place (reverse / translate / rotate / scale / round /
+    moving one node through the segment objects), put them again; each answer must be exactly that of a fresh path built from the
+    segments' control points as they are now.  reverse() and the rigid motions keep the total length (bit for bit, for reverse), so a
+    memo keyed on the length alone does not notice them."""
+    import random
+    from beziers.point import Point
+    rng = random.Random(seed)
+    p = path_from(segs, closed)
+    for _, fn in queries:
+        _val(fn, p)
+    route = rng.choice(["reverse", "reverse", "translate", "rotate", "scale", "node", "round"])
+    if route == "reverse":
+        p.reverse()
+    elif route == "translate":
+        p.translate(Point(float(rng.randint(-40, 40)), float(rng.randint(-40, 40))))
+    elif route == "rotate":
+        p.rotate(Point(float(rng.randint(-10, 10)), float(rng.randint(-10, 10))), rng.choice([1.0, -0.5, 2.5]))
+    elif route == "scale":
+        p.scale(rng.choice([-1.0, 2.0, 0.5]))
+    elif route == "round":
+        p.translate(Point(0.4, -0.3))
+        p.round()
+    else:
+        sg = p.asSegments()
+        j = rng.randrange(len(sg))
+        d = float(rng.randint(5, 60))
+        old = sg[j].end
+        new = Point(old.x + d, old.y - d)
+        sg[j][len(sg[j].points) - 1] = new
+        if j + 1 < len(sg):
+            sg[j + 1][0] = Point(new.x, new.y)
+    now = [seg_pts(sg) for sg in p.asSegments()]
+    fresh = path_from(now, p.closed)
+    for name, fn in queries:
+        a, b = _val(fn, p), _val(fn, fresh)
+        if a != b and not (a != a and b != b):
+            return "after changing the path in place (%s) %s answers %r; a fresh path with the same segments %r answers %r (stale state)" % (
+                route, name, a, now, b)
     return None
